@@ -40,12 +40,12 @@ def reads_ok(store):
     return None
 
 
-def build_state(ctx, r, n_cmds, weights=None, binary=None, big=0):
+def build_state(ctx, r, n_cmds, weights=None, binary=None, big=0, legacy=False):
     """a store brought to a CLI-reachable state by a short seeded history (returns store, view, trace).
     big=N first adds one plan of N tasks with ~600-byte bodies, so the log spans several 64 KiB blocks"""
-    st = cmdrun.Store(binary or ctx.ergo_verif, ctx.go)
+    st = cmdrun.Store(binary or ctx.ergo_verif, ctx.go, legacy=legacy)      # legacy: the log is still called events.jsonl
     v = gen.View()
-    trace = []
+    trace = [{"store": "legacy log name events.jsonl"}] if legacy else []
     if big:
         doc = {"title": "bulk", "tasks": [{"title": "bulk %d" % i, "body": ("filler %d " % i) * 60} for i in range(big)]}
         env = {"VERIF_RAND": str(r.next() % (1 << 40))}
